@@ -47,11 +47,16 @@ def run(ctx):
     d = ctx.go_test_binary("containerd-stargz-grpc/db", "h_db", module_dir="cmd")
     jobs = []
     if b:
-        jobs.append((b, "c04layer", {"VERIF_N": 220 if quick else 3000,
-                                     "VERIF_N_ARITH": 2500 if quick else 120000,
+        jobs.append((b, "c04layer", {"VERIF_N": 220 if quick else 2200,
+                                     "VERIF_N_ARITH": 2500 if quick else 100000,
                                      "VERIF_N_PF": 600 if quick else 30000}))
     if d:
-        jobs.append((d, "c04db", {"VERIF_N": 60 if quick else 1200}))
+        jobs.append((d, "c04db", {"VERIF_N": 60 if quick else 900}))
+    # fs/remote binary: parseRange on hostile Content-Range headers, blob.ReadAt/Cache against a
+    # fetcher whose reply parts carry arbitrary regions and amounts of data
+    rb = ctx.go_test_binary("fs/remote", "h_remote")
+    if rb:
+        jobs.append((rb, "c04remote", {"VERIF_N": 500 if quick else 20000}))
     # the two harnesses run side by side (they only share the machine); their results are then
     # fed through the ordinary correspondence step one after the other
     done = {}
@@ -61,7 +66,7 @@ def run(ctx):
         binary, tag, env = job
         done[tag] = real_run(binary, "TestVerifC04", tag, env=env, timeout=3000)
 
-    with concurrent.futures.ThreadPoolExecutor(max_workers=2) as ex:
+    with concurrent.futures.ThreadPoolExecutor(max_workers=3) as ex:
         list(ex.map(work, jobs))
     ctx.run_harness = lambda binary, test, tag, env=None, timeout=1800, cwd=None: done[tag]
     for binary, tag, env in jobs:
@@ -81,7 +86,8 @@ def run(ctx):
              "replies), raw blobs of 0-200 bytes, truncations of a valid blob at every 1st/3rd length, bit flips, "
              "hostile tars for Build, raw byte strings for the four ParseFooter functions, and arithmetic ops "
              "(Open with scripted decompressors, file.ReadAt and GetPassthroughFd with a scripted store/cache, "
-             "initFields on generated entry lists); an input is distinct by (input class, outcome vector over "
+             "initFields on generated entry lists), hostile Content-Range headers for parseRange and reply parts with "
+             "arbitrary regions/lengths for blob.ReadAt/Cache; an input is distinct by (input class, outcome vector over "
              "targets); every arithmetic op and every ParseFooter call is compared impl-vs-model; a crash "
              "(recovered panic, dead child: goroutine panic, stack overflow, out of memory) or a hang (no progress "
              "for VERIF_C04_HANG_S seconds, confirmed alone with twice the time) of ANY target is an oracle failure "
